@@ -190,6 +190,7 @@ def run(rep, tier):
                     rep.tie_broken('Lean find_peaks model and implementation disagree', {'op': ln[:300], 'model': o, 'impl': e})
     starfinders(rep, drv, r, 10 * scale)
     centroid_refine(rep, r, 10 * scale)
+    exclude_border_probe(rep, r, 8 * scale)
 
 
 def star_scene(r):
@@ -301,6 +302,48 @@ def starfinders(rep, drv, r, n):
                 rep.tie_broken(f'star-finder selection model and {name} disagree', {'op': ln[:300], 'model': o, 'impl': e})
         elif o != e:
             rep.count('stars:tie-order-differs')
+
+
+def exclude_border_probe(rep, r, n):
+    """exclude_border=True drops exactly the detections closer to an edge than the kernel half-size along THAT axis
+    (non-square kernels: elongated DAO kernel, rectangular StarFinder kernel)"""
+    from photutils.detection import DAOStarFinder, StarFinder
+    for k in range(n):
+        ny, nx = r.randint(40, 60), r.randint(40, 60)
+        yy, xx = np.mgrid[0:ny, 0:nx]
+        img = np.zeros((ny, nx))
+        pos = []
+        for _ in range(r.randint(5, 9)):
+            t = r.random()
+            x0 = r.choice([r.uniform(1, 7), r.uniform(nx - 8, nx - 2)]) if t < 0.4 else r.uniform(8, nx - 9)
+            y0 = r.choice([r.uniform(1, 7), r.uniform(ny - 8, ny - 2)]) if 0.3 < t < 0.7 else r.uniform(8, ny - 9)
+            img += r.uniform(300, 900) * np.exp(-((xx - x0) ** 2 + (yy - y0) ** 2) / (2 * 1.3 ** 2))
+            pos.append((x0, y0))
+        img += np.random.RandomState(r.randrange(2 ** 31)).normal(0, 0.2, img.shape)
+        gy, gx = np.mgrid[-1:2, -4:5] if k % 2 == 0 else np.mgrid[-4:5, -1:2]
+        kern = np.exp(-(gx ** 2 + gy ** 2) / (2 * 1.3 ** 2))
+        makers = [('DAOStarFinder', lambda eb: DAOStarFinder(threshold=5.0, fwhm=r_fwhm, ratio=0.35, theta=th, exclude_border=eb)),
+                  ('StarFinder', lambda eb: StarFinder(threshold=5.0, kernel=kern, exclude_border=eb))]
+        r_fwhm, th = r.choice([6.0, 8.0]), r.choice([0.0, 90.0])
+        for name, mk in makers:
+            with warnings.catch_warnings():
+                warnings.simplefilter('ignore')
+                try:
+                    f0, f1 = mk(False), mk(True)
+                    c0, c1 = f0._get_raw_catalog(img), f1._get_raw_catalog(img)
+                except Exception as e:                          # noqa: BLE001
+                    rep.violation(f'exclude_border-raises:{name}', f'{name} raised {e!r}', {'finder': name})
+                    continue
+            kk = f1.kernel
+            byr, bxr = ((kk.shape[0] - 1) // 2, (kk.shape[1] - 1) // 2) if isinstance(kk, np.ndarray) else (int(kk.yradius), int(kk.xradius))
+            p0 = set() if c0 is None else {(int(x), int(y)) for x, y in np.asarray(c0.xypos)}
+            p1 = set() if c1 is None else {(int(x), int(y)) for x, y in np.asarray(c1.xypos)}
+            exp = {(x, y) for (x, y) in p0 if byr <= y < ny - byr and bxr <= x < nx - bxr}
+            rep.case(('eb', name, img.tobytes()), byr != bxr and p0 != exp, kind=f'exclude_border:{name}')
+            rep.probe_only += 1
+            if p1 != exp:
+                rep.violation(f'exclude_border:{name}', f'{name}(exclude_border=True), kernel half-sizes (y, x) = ({byr}, {bxr}): detections {sorted(p1 ^ exp)} '
+                              f'are wrongly kept / dropped', {'finder': name, 'data': img.tolist(), 'kernel_half_sizes_yx': [byr, bxr]})
 
 
 def centroid_refine(rep, r, n):
